@@ -33,6 +33,21 @@ def gen(rng, tier):
                     bm[(bit - 1) // 8] |= 1 << (7 - (bit - 1) % 8)
                 data = ('-%0*d' % (w - 1, w) + 'Z' * (cb['field_length'] - w)).encode(codec)
                 cases.append({'cfg': cfg_obj, 'codec': codec, 'hex': False, 'bytes': ('1144'.encode(codec) + bytes(bm) + data).hex(), 'mut': 'negative-length'})
+    # every variable element at the top of its range (the frame must be exactly its declared bytes)
+    for cfg_obj in [None, iu.gen_config(rng, allbits=True)]:
+        cfg = cfg_obj or pk
+        for k, c in sorted(cfg.items(), key=lambda kc: int(kc[0])):
+            if c['field_type'] == 'FIXED' or c.get('field_python_type') or c.get('field_processor') in ('PDS', 'ICC'):
+                continue
+            vmax = 99 if c['field_type'] == 'LLVAR' else 999
+            for n in (vmax, vmax - 1, vmax - 2, vmax - 3, vmax - 4):
+                codec = rng.choice(['latin_1', 'cp500'])
+                m = {'MTI': '1240', 'DE' + k: iu.rand_text(rng, codec, n)}
+                try:
+                    b = iu.ref_wire(m, cfg, codec, False)
+                except (iu.Refused, UnicodeEncodeError):
+                    continue
+                cases.append({'cfg': cfg_obj, 'codec': codec, 'hex': False, 'bytes': b.hex(), 'mut': 'valid-long'})
     nb = 70 if tier == 'quick' else 1200
     for i in range(nb):
         codec = ['latin_1', 'cp500', 'ascii', 'cp037', 'cp1252', 'cp875'][i % 6]
@@ -144,7 +159,7 @@ def judge(case, io_, mo):
 
 
 def nontrivial(case, io_):
-    return io_.get('out', '').startswith('OK ') or case['mut'] in ('valid', 'prefix-digit', 'prefix-value')
+    return io_.get('out', '').startswith('OK ') or case['mut'] in ('valid', 'valid-long', 'prefix-digit', 'prefix-value')
 
 
 def label(case):
